@@ -1,9 +1,15 @@
 #!/usr/bin/env bash
-# all_quick.sh : every property's quick check on the current /repo working tree; evidence files are rewritten. Exit 1 if any fails.
+# all_quick.sh [extra seeds...] : every property's quick check on the current /repo working tree with the default seed
+# (evidence files are rewritten), then with each extra seed (evidence goes to a scratch file). Exit 1 if any fails.
+# Run this -- with a few extra seeds -- before every commit that touches the spec or the generator.
 cd /verif; rc=0
 for p in C01 C02 C03 C04 C05 C06 C07 C08 C09 C10 C11 C12 C13 C14 C15 C16 C17 C18; do
-  out=$(./check $p quick 2>&1); code=$?
+  out=$(./check $p quick 2>/dev/null); code=$?
   echo "$out" | tail -1
   if [ $code -ne 0 ]; then rc=1; echo "$out" | grep -E "^C[0-9]+ \[|VIOLATION|ERROR" | head -5; fi
+  for s in "$@"; do
+    out=$(VERIF_SEED=$s ./check $p quick --out /tmp/scratch/all_quick_ev.json 2>/dev/null); code=$?
+    if [ $code -ne 0 ]; then rc=1; echo "seed $s: $(echo "$out" | grep -E "^C[0-9]+ \[|VIOLATION|ERROR" | head -3)"; fi
+  done
 done
 exit $rc
